@@ -34,8 +34,8 @@ Print Assumptions c08_regression_multiline.
 
 (** The bracket hypothesis is decidable: the engine's class parser reads benign class text as the
     union of its members. *)
-Theorem c08_class_benign : forall neg cits, class_benign cits = true -> Forall item_valid cits ->
-  exists f, class_sem neg cits = COk f /\ forall x, f x = existsb (fun i => citem_has i x) cits.
+Theorem c08_class_benign : forall ci neg cits, class_benign cits = true -> Forall item_valid cits ->
+  exists f, class_sem ci neg cits = COk f /\ forall x, f x = existsb (fun i => citem_has i x) cits.
 Proof. exact class_benign_sem. Qed.
 Print Assumptions c08_class_benign.
 
